@@ -140,6 +140,15 @@ CHECKS["C08"] = dict(
     note=E2NOTE,
 )
 
+CHECKS["C19"] = dict(
+    engine=E2, category="model_checking", design="§3 C19",
+    technique="symbolic execution of loads/dumps/instantiate with the iteration order of every string-hashed set forked as a symbolic permutation (order stub); z3 decides outcome inequality between order paths; PYTHONHASHSEED sweep as replay",
+    text="The iteration order of every set of symbols / parameter names met by the code under test is a symbolic permutation chosen by the engine; content snapshot "
+         "(modulo the documented freedom of register order), dumps() text and the text of an instance must agree on all order paths for all literal values (z3). "
+         "A differing pair of orders is reported only after a sweep over PYTHONHASHSEED values reproduces a differing digest.",
+    note=E2NOTE,
+)
+
 NOT_YET = "check not built yet in this round (see DESIGN.md §3 for the plan); not claimed"
 
 
